@@ -22,9 +22,15 @@
     el0 el1   ESC[K  ESC[1K  erase to end / from beginning of line, cursor cell included
     ed0       ESC[J          erase to end of screen
     hide show ESC[?25l  ESC[?12lESC[?25h
-    decsc decrc  ESC7 ESC8   save / restore cursor (position, pending wrap, graphic state)
+    decsc decrc  ESC7 ESC8   save / restore cursor (position, pending wrap, graphic state); one slot per screen
     altEnter altLeave  ESC[?1049h / ESC[?1049l (plus the title-stack strings blessed adds)
     dsr       ESC[6n         the terminal answers ESC[<row+1>;<col+1>R on its input side (`replies`)
+  DOMAIN of `put`: every cell is a PRINTABLE character occupying ONE column (no C0/C1 control, no DEL, no wide or
+  combining character): `putCell` stores the cell and advances one column, which is not what a terminal does with a
+  newline, a tab or a double-width character.  The theorems about the windows therefore assume `Printable` rows
+  ("single-column characters" in the properties' quantifiers).  The cells of `put` carry ABSOLUTE formatting: `putStr s`
+  is correct only for a terminal whose graphic state is the default one when `s` arrives — the theorems assume
+  `t.g = {}` when a render starts and prove it again at its end (every `str(FmtStr)` ends in the default state).
   Not exercised by curtsies and fixed here as xterm does it: `lf` clears `pw`; erasing leaves `pw` alone.
 -/
 import Curtsies.Spec.Sgr
@@ -52,6 +58,8 @@ structure Term where
   g : Eff := {}
   cursorVisible : Bool := true
   saved : SavedCursor := {}
+  /-- xterm keeps one saved cursor per screen: DECSC/DECRC on the alternate screen use this one -/
+  savedAlt : SavedCursor := {}
   /-- `some (main grid)` while the alternate screen is active -/
   alt : Option Grid := none
   /-- cursor position reports sent so far (oldest first) -/
@@ -89,6 +97,8 @@ def Term.set (t : Term) (r c : Nat) (x : TCell) : Term :=
 
 /-- one printable character with autowrap -/
 def Term.putCell (t : Term) (x : TCell) : Term :=
+  let t := { t with g := x.2 }     -- the graphic state in force when this character arrives (a wrap-induced
+                                   -- scroll erases the new row with ITS background)
   let t := if t.pw then { t.index with c := 0, pw := false } else t
   let t := t.set t.r t.c x
   if t.c + 1 < t.w then { t with c := t.c + 1 } else { t with pw := true }
@@ -105,8 +115,12 @@ def Term.step (t : Term) : TermOp → Term
   | .ed0 => { t with grid := fun r c => if (r = t.r ∧ t.c ≤ c) ∨ t.r < r then t.erased else t.grid r c }
   | .hide => { t with cursorVisible := false }
   | .show => { t with cursorVisible := true }
-  | .decsc => { t with saved := { r := t.r, c := t.c, pw := t.pw, g := t.g } }
-  | .decrc => { t with r := min t.saved.r (t.h - 1), c := min t.saved.c (t.w - 1), pw := t.saved.pw, g := t.saved.g }
+  | .decsc =>
+    if t.alt.isNone then { t with saved := { r := t.r, c := t.c, pw := t.pw, g := t.g } }
+    else { t with savedAlt := { r := t.r, c := t.c, pw := t.pw, g := t.g } }
+  | .decrc =>
+    let s := if t.alt.isNone then t.saved else t.savedAlt
+    { t with r := min s.r (t.h - 1), c := min s.c (t.w - 1), pw := s.pw, g := s.g }
   | .altEnter =>
     match t.alt with
     | some _ => t
